@@ -119,6 +119,9 @@ class EffectAnalysis:
         self.functions_analysed: Set[str] = set()
         self.unresolved_with_taint: Dict[str, int] = {}
         self.immutable_fields = immutable_fields(P)
+        # optional extra origins: method names whose result / attribute names of `self` whose value IS a stored, shared object
+        self.source_calls: Dict[str, str] = {}
+        self.source_attrs: Dict[str, str] = {}
 
     # ---- entry -----------------------------------------------------------------------------------
     def analyse_entry(self, qualname: str) -> Summary:
@@ -331,6 +334,8 @@ class _FuncState:
         if isinstance(e, ast.Constant):
             return EMPTY
         if isinstance(e, ast.Attribute):
+            if e.attr in self.A.source_attrs and isinstance(e.value, ast.Name) and e.value.id == "self":
+                return frozenset({("S", self.A.source_attrs[e.attr])})
             base = self.ev(e.value, env)
             if e.attr in self.A.immutable_fields:
                 return EMPTY  # field annotated with an immutable type everywhere it is declared in the repo
@@ -420,6 +425,8 @@ class _FuncState:
                 return elem(allargs)
             return EMPTY
         recv: TS = EMPTY
+        if isinstance(fn, ast.Attribute) and fn.attr in self.A.source_calls:
+            return frozenset({("S", self.A.source_calls[fn.attr])})
         if isinstance(fn, ast.Attribute):
             recv = self.ev(fn.value, env)
             m = fn.attr
